@@ -257,7 +257,12 @@ func runC43(c *core.Ctx) {
 		eng.Dominates(c, "C43.load", fn, eng.NamedGuard{Name: "DecryptWithCustomScrypt err==nil", G: ir.ErrNil(func(x *ssa.Call) bool { return x == dec })}, succ, "account returned", nil)
 		// fields of the returned Account
 		okPriv, okPub, okAddr := false, false, false
-		for _, b := range fn.Blocks {
+		hosts, releaseHosts := hostsWithHelpers(fn) // the literal may be assembled by a small same-package helper
+		var blocks []*ssa.BasicBlock
+		for _, h := range hosts {
+			blocks = append(blocks, h.Blocks...)
+		}
+		for _, b := range blocks {
 			for _, in := range b.Instrs {
 				st, ok := in.(*ssa.Store)
 				if !ok {
@@ -289,6 +294,7 @@ func runC43(c *core.Ctx) {
 				}
 			}
 		}
+		releaseHosts()
 		c.Decide(okPriv && okPub && okAddr, "C43.load", fn, "the account returned carries the decrypted key, its public key and the address derived from it", c.P.Rel(dec.Pos()), sprintf("private %v public %v address %v", okPriv, okPub, okAddr))
 	}
 
